@@ -275,7 +275,7 @@ def _factor_params(draw, kind, R, D, kappa=100.0):
 
 # ----------------------------------------------------------------------------- conditionals
 COND_KINDS = ["full", "diag", "identity", "identity_diag", "nn"]
-COND_CTORS = ["Sigma", "Lambda", "all"]
+COND_CTORS = ["Sigma", "Lambda", "all", "Sigma+Lambda"]
 
 
 @st.composite
@@ -396,6 +396,29 @@ def feature_params(draw, kind, Dx, Dy, Dk, kappa=30.0):
     else:
         # W[:,0] = offset w0 (non-zero in general), W[:,1:] = weights
         p["W"] = draw(arr((Dk, Dx + 1), -1.2, 1.2))
+    if draw(st.sampled_from([False] * 5 + [True])):
+        # exact structure of the feature model: two identical kernels (the feature covariance is singular although every input
+        # matrix is well conditioned), a kernel far outside any p(x) (its expectations underflow), no kernel read-out at all
+        which = draw(st.sampled_from(["duplicate_kernel", "kernel_far_outside", "zero_kernel_weights"]))
+        ok = True
+        if which == "duplicate_kernel" and Dk >= 2:
+            for k_ in (("mu", "length_scale") if kind == "lrbf" else ("W",)):
+                p[k_] = np.array(p[k_], float)
+                p[k_][1] = p[k_][0]
+        elif which == "kernel_far_outside":
+            if kind == "lrbf":
+                p["mu"] = np.array(p["mu"], float)
+                p["mu"][0] = 40.0 * np.where(p["mu"][0] < 0, -1.0, 1.0)
+            else:
+                p["W"] = np.array(p["W"], float)
+                p["W"][0, 0] = 30.0
+        elif which == "zero_kernel_weights":
+            p["M"] = np.array(p["M"], float)
+            p["M"][:, :, Dx:] = 0.0
+        else:
+            ok = False
+        if ok:
+            p["_structure"] = which
     return p
 
 
